@@ -48,8 +48,10 @@ func init() {
 			{ID: "G3", Floor: 22, Doc: "each option field is read only in its documented role and written only by its constructor", Run: c17G3},
 			{ID: "G4", Floor: 3, Doc: "node/way/relation meta cases are identical up to the element type", Run: c17G4},
 			{ID: "G5", Floor: 5, Doc: "each element loop appends at most one feature per iteration; skippable ways are not appended", Run: c17G5},
+			{ID: "G6", Floor: 4, Doc: "a way becomes skippable only when it has no interesting tag of its own", Run: c17G6},
 		},
 		Mutants: []core.Mutant{
+			{Name: "g6-route-way-ignores-relation-tags", File: "osmgeojson/convert.go", Find: "if !hasInterestingTags(way.Tags, nil) {\n\t\t\tctx.skippable[way.ID] = struct{}{}", Replace: "if !hasInterestingTags(way.Tags, relation.Tags.Map()) {\n\t\t\tctx.skippable[way.ID] = struct{}{}", ExpectRule: "G6", ExpectConstruct: "buildRouteLineString"},
 			// G1
 			{Name: "g1-linestring-writes-way-nodes", File: "osmgeojson/convert.go", Find: "for _, wn := range w.Nodes {\n\t\tif wn.Lon != 0", Replace: "for i, wn := range w.Nodes {\n\t\tw.Nodes[i].Version = 0\n\t\tif wn.Lon != 0", ExpectRule: "G1", ExpectConstruct: "wayToLineString"},
 			{Name: "g1-route-caches-coords-in-input", File: "osmgeojson/convert.go", Find: "\t\tls, t := ctx.wayToLineString(way)\n", Replace: "\t\tls, t := ctx.wayToLineString(way)\n\t\tif len(ls) > 0 && len(way.Nodes) > 0 {\n\t\t\tway.Nodes[0].Lon, way.Nodes[0].Lat = ls[0][0], ls[0][1]\n\t\t}\n", ExpectRule: "G1", ExpectConstruct: "buildRouteLineString"},
